@@ -26,6 +26,7 @@ from common import err_kind
 from props import c03_flavours as FL
 from props import c03_calls as CL
 from props import c03_raise as RX
+from props import c03_tr as TR
 
 ID = "C03"
 RULE = ("random histories (length 3..14 quick, ..40 thorough) over a pool of finite / periodic Streams, "
@@ -1453,7 +1454,48 @@ def request(case):
     return case
 
 
+def regenerate(eng=None):
+    """translator (harness/props/c03_tr.py): lean/ALV/Gen/C03Src.lean is rewritten from audiolazy/lazy_stream.py"""
+    return TR.regenerate(eng)
+
+
+def _translator_checks(eng):
+    import os, subprocess
+    rel = "lean/" + TR.GEN_REL.replace(os.sep, "/")
+    good = subprocess.run(["git", "-C", common.VERIF, "show", "HEAD:" + rel], capture_output=True, text=True, timeout=30)
+    committed = good.stdout if good.returncode == 0 and good.stdout else None
+    try:
+        text = TR.read_source()
+    except Exception as e:
+        yield ("translator-selftest", False, "source not readable: %r" % (e,))
+        return
+    for item in TR.selftest(text, committed):
+        yield item
+    try:
+        progs, sigs = TR.parse(text)
+        done = ["Stream." + m for m in TR.STREAM_METHODS] + ["StreamTeeHub." + m for m in TR.HUB_DEFS + TR.HUB_LAMBDAS]
+    except Exception as e:
+        done = "translation failed: %s" % e
+    eng.extra["translated"] = {
+        "translator": "harness/props/c03_tr.py -> " + rel + " (deep embedding ALV.C03.Src.Body / HubBody, interpreter "
+                      "ALV.C03.Src.stepP in lean/ALV/Model/C03Src.lean)",
+        "under_translator": done,
+        "theorems": ["src_take_mode_is_model", "src_take_is_model", "src_copy_is_model", "src_hub_copy_is_model",
+                     "src_peek_is_model", "src_skip_is_model", "src_limit_is_model", "src_append_is_model",
+                     "src_map_is_model", "src_filter_is_model", "src_hub_methods_are_model", "src_step_is_model",
+                     "src_signatures_are_model"],
+        "not_translated": TR.NOT_TRANSLATED,
+    }
+
+
 def extra_checks(eng):
+    for item in _translator_checks(eng):
+        yield item
+    for item in _del_checks(eng):
+        yield item
+
+
+def _del_checks(eng):
     """StreamTeeHub.__del__ (an object-lifetime effect, outside the Lean model): a hub that dies with k unused
     copies warns once, naming k, and lets them go; a hub whose copies were all used is silent"""
     from audiolazy import Stream, thub
